@@ -4,7 +4,7 @@
    run-time side = Model.rt_bin / rt_un: the C the generator emits, under Base.CInt (Gnu mode),
    with the helper functions taken verbatim from the generated C (Gen.v). *)
 From Base Require Import CInt.
-From C02 Require Import Gen Model ProofsHelpers ProofsHelpersAsr ProofsHelpersCmp ProofsHelpersEq ProofsDiv Proofs.
+From C02 Require Import Gen Model ProofsHelpers ProofsHelpersAsr ProofsHelpersCmp ProofsHelpersEq ProofsDiv Proofs ProofsNested.
 Local Open Scope Z_scope.
 
 (* rt_is_modular, + - * and unary minus: for every pair of operand types and ALL integer operand
@@ -68,13 +68,37 @@ Theorem C02_rt_is_modular_shifts_partial : forall lt rt a b,
 Proof. exact rt_shifts_modular_partial. Qed.
 Print Assumptions C02_rt_is_modular_shifts_partial.
 
-(* rt_bin is the value of an operator result once STORED (or passed); rt_nested_l is its value when
-   consumed directly by another operator.  Since 1d3f0fa / 8eb30df every result narrower than C int
-   is cast to its type, and the two coincide: for every non-comparison inner operator, every outer
-   operator, all types and ALL values (Proofs.rt_context_independent, full strength) *)
-Theorem C02_rt_context_independent : rt_context_independent.
-Proof. exact rt_context_independent_holds. Qed.
-Print Assumptions C02_rt_context_independent.
+(* rt_bin / rt_bin_k is the value of an operator result once STORED (or passed); rt_nested_l is its
+   value when consumed directly by another operator; k1 says whether the inner right operand is a
+   compile-time constant (the emitter then takes its shift fast paths).  The full statement
+   (ProofsNested.rt_context_independent: every non-comparison inner operator, every outer operator,
+   all types, ALL values, both kinds of count) is FALSE today: `l << k` with a constant count on an
+   unsigned operand narrower than int is emitted as the bare C shift, computed in int, so
+   (uint8(200) << 1) > 255 is true nested and false once stored.  The statement depends on the cast
+   conditions scraped from the emitter on this run (Gen.binop_casts_subint,
+   Gen.tdiv_mixed_casts_back, Gen.shl_fast_casts_unsigned_subint). *)
+Definition C02_rt_context_independent : Prop := rt_context_independent.
+
+Theorem C02_rt_context_independent_refuted : ~ C02_rt_context_independent.
+Proof. exact (rt_context_independent_refuted eq_refl). Qed.
+Print Assumptions C02_rt_context_independent_refuted.
+
+(* ... true for everything else: run-time counts, signed or int-or-wider left operands, every other
+   operator (the casts of 1d3f0fa / 8eb30df enter through ProofsNested.binop_casts_fact /
+   tdiv_casts_fact: reverting either commit breaks this proof) *)
+Theorem C02_rt_context_independent_partial : forall o1 o2 t1 t2 t3 a b c k1,
+  wf_ity t1 -> wf_ity t2 -> is_cmpop o1 = false -> in_range t1 a ->
+  ~ (k1 = true /\ o1 = Bshl /\ sgn t1 = false /\ bits t1 < 32) ->
+  rt_nested_l o1 o2 t1 t2 t3 a b c k1 = rt_stored_l o1 o2 t1 t2 t3 a b c k1.
+Proof. exact rt_context_independent_partial. Qed.
+Print Assumptions C02_rt_context_independent_partial.
+
+(* ... and the full statement follows as soon as the fast path casts its result
+   (harness/C02/proposed_repairs/11-shl-constant-count-reduced.diff) *)
+Theorem C02_rt_context_independent_if_cast :
+  shl_fast_casts_unsigned_subint = true -> C02_rt_context_independent.
+Proof. exact rt_context_independent_if_cast. Qed.
+Print Assumptions C02_rt_context_independent_if_cast.
 
 (* comparisons: exact on both sides, for all types (mixed signedness included) and values *)
 Theorem C02_comparisons_agree : forall o lt rt a b, wf_ity lt -> wf_ity rt -> is_cmpop o = true ->
